@@ -1683,14 +1683,13 @@ impl AsNode for XmlAttr {
 impl AsExpandedName for XmlAttr {
     fn as_expanded_name(&self) -> error::Result<Option<ExpandedName>> {
         let local_name = self.attribute.borrow().local_name().to_string();
-        let (prefix, ns) = if let Ok(element) = self.attribute.borrow().owner_element() {
-            // TODO: prefix is None
-            let prefix = self
-                .attribute
-                .borrow()
-                .prefix()
-                .unwrap_or("xmlns")
-                .to_string();
+        let prefix = self.attribute.borrow().prefix().map(|v| v.to_string());
+        let (prefix, ns) = if prefix.is_none() {
+            // the default namespace does not apply to attributes
+            let attached = self.attribute.borrow().owner_element().is_ok();
+            (attached.then(|| "xmlns".to_string()), None)
+        } else if let Ok(element) = self.attribute.borrow().owner_element() {
+            let prefix = prefix.unwrap_or_default();
             let namespaces = XmlElement::from(element).in_scope_namespace()?;
             if let Some(ns) = namespaces.iter().find(|v| v.node_name() == prefix) {
                 (Some(prefix), ns.node_value()?)
